@@ -300,10 +300,13 @@ var kinds = []string{
 	"tx-unbalanced", "tx-timerange", "tx-timerange-ok", "cb-extra-out", "cb-nonzero", "cb-two-inputs", "no-coinbase", "empty-block",
 	"reward-plus", "reward-minus", "reward-missing", "reward-wrongprog", "reward-split-ok",
 	"spend-missing", "spend-spent", "spend-immature", "spend-locked", "inblock-double", "dup-tx", "gas-over", "none",
+	"spend-immature-edge", "spend-mature-edge-ok", "spend-locked-edge", "veto-edge-ok",
 }
 
-var spendKinds = map[string]bool{"spend-missing": true, "spend-spent": true, "spend-immature": true, "spend-locked": true, "inblock-double": true, "dup-tx": true}
-var validKinds = map[string]bool{"time-future-ok": true, "tx-timerange-ok": true, "reward-split-ok": true, "none": true}
+var spendKinds = map[string]bool{"spend-missing": true, "spend-spent": true, "spend-immature": true, "spend-locked": true, "inblock-double": true, "dup-tx": true,
+	"spend-immature-edge": true, "spend-locked-edge": true}
+var validKinds = map[string]bool{"time-future-ok": true, "tx-timerange-ok": true, "reward-split-ok": true, "none": true,
+	"spend-mature-edge-ok": true, "veto-edge-ok": true}
 
 func pickSpendable(g *gen, st *bstate, h uint64) (outRef, bool) {
 	var cand []outRef
@@ -367,8 +370,11 @@ func (g *gen) mutantBlock(parent *node, kind string) (*node, bool) {
 	case "sig-garbage":
 		opt.MutateAfter = func(b *types.Block) { b.BlockWitness[g.r.Intn(len(b.BlockWitness))] ^= 1 << uint(g.r.Intn(8)) }
 	case "wrong-slot":
+		// the block hash does not cover the witness: a later sibling in the same slot would be the same block
+		// (same hash) with a good signature, so the siblings' slots are moved past the mutant's
 		d := uint64(1 + g.r.Intn(3))
 		opt.Mutate = func(b *types.Block) { b.Timestamp = ts + d*iv }
+		defer func() { parent.skip += int(d) }()
 	case "merkle-random":
 		opt.MutateAfter = func(b *types.Block) {
 			b.TransactionsMerkleRoot = bc.NewHash([32]byte{0xbe, 0xef, byte(g.r.Intn(256))})
@@ -487,6 +493,25 @@ func (g *gen) mutantBlock(parent *node, kind string) (*node, bool) {
 			return nil, false
 		}
 		txs = append(txs, g.mkTx([]outRef{cand[g.r.Intn(len(cand))]}, 1, false, 0))
+	case "spend-immature-edge", "spend-mature-edge-ok", "spend-locked-edge", "veto-edge-ok":
+		// a coinbase / vote output exactly one block before, or exactly at, the end of its waiting period
+		want, wait, early := 1, consensus.CoinbasePendingBlockNumber, uint64(0)
+		if kind == "spend-locked-edge" || kind == "veto-edge-ok" {
+			want, wait = 2, 3
+		}
+		if kind == "spend-immature-edge" || kind == "spend-locked-edge" {
+			early = 1
+		}
+		var cand []outRef
+		for _, o := range parent.st.avail {
+			if o.kind == want && o.height+wait == h+early && o.out.Amount() > fee+3000000 {
+				cand = append(cand, o)
+			}
+		}
+		if len(cand) == 0 {
+			return nil, false
+		}
+		txs = []*types.Tx{g.mkTx([]outRef{cand[g.r.Intn(len(cand))]}, 1+g.r.Intn(2), false, 0)}
 	case "inblock-double":
 		o, ok := pickSpendable(g, parent.st, h)
 		if !ok {
@@ -583,8 +608,9 @@ func buildScenario(w *cl.World, trunk []*cl.BlockInfo, c *Case, now uint64) *gen
 	}
 	steps := 6 + g.r.Intn(7)
 	at := 1 + g.r.Intn(steps-2)
-	if kind == "reward-plus" || kind == "reward-minus" || kind == "reward-missing" || kind == "reward-wrongprog" || kind == "reward-split-ok" {
-		at = 0 // heights 17, 21, 25 are epoch-first: try from the start
+	if kind == "reward-plus" || kind == "reward-minus" || kind == "reward-missing" || kind == "reward-wrongprog" || kind == "reward-split-ok" ||
+		strings.Contains(kind, "-edge") {
+		at = 0 // heights 17, 21, 25 are epoch-first; the waiting periods end at fixed heights: try from the start
 	}
 	onFork := c.Fork == 1 || (c.Fork == 2 && g.r.Chance(40))
 	for i := 0; i < steps; i++ {
@@ -827,11 +853,16 @@ func runCase(w *cl.World, trunk []*cl.BlockInfo, c *Case, base string) (*Result,
 	if g.mutant != nil {
 		r.Mutant = g.mutant.label
 	}
-	r.Blocks = describe(g)
 	label := map[bc.Hash]int{}
 	for _, x := range g.nodes {
+		if _, dup := label[x.bi.Hash]; dup {
+			// two generated blocks share a hash (it does not cover the witness): not a history of distinct blocks
+			r.Note = "hash-collision"
+			return r, nil
+		}
 		label[x.bi.Hash] = x.label
 	}
+	r.Blocks = describe(g)
 	deliver := func(x *node) {
 		orphan, err := n.Process(x.bi.Block)
 		bh := n.Chain.BestBlockHeader().Hash()
@@ -1075,27 +1106,56 @@ func oracle(r *Result) []string {
 		return []string{"class=hang: the node did not answer within the time limit"}
 	}
 	ancestorOrSelfBroken := func(l int) bool { return l >= 0 && l < len(r.Blocks) && r.Blocks[l].Broken }
+	// vote outputs the mutant spends while they are locked
+	lockedOuts := map[int]bool{}
+	if r.Mutant >= 0 && (r.Kind == "spend-locked" || r.Kind == "relock") {
+		for _, t := range r.Blocks[r.Mutant].Txs {
+			for _, sp := range t.Spends {
+				if sp[1] == 2 {
+					lockedOuts[sp[0]] = true
+				}
+			}
+		}
+	}
+	// vetoSeen: some earlier main chain (ancestors of the best block) held ANOTHER block spending one of them,
+	// i.e. a reorganisation has detached a veto of that output (the C10 height loss then forgets its lock)
+	vetoSeen := false
+	noteMain := func(best int) {
+		for l, n := best, 0; l > 0 && l < len(r.Blocks) && n < len(r.Blocks); l, n = r.Blocks[l].Parent, n+1 {
+			if l == r.Mutant {
+				continue
+			}
+			for _, t := range r.Blocks[l].Txs {
+				for _, sp := range t.Spends {
+					if lockedOuts[sp[0]] {
+						vetoSeen = true
+					}
+				}
+			}
+		}
+	}
+	connectedClass := func() string {
+		if vetoSeen {
+			return "class=locked-vote-spend-connected-after-reorg"
+		}
+		return "class=invalid-block-connected"
+	}
 	delivered := map[int]bool{0: true}
 	stuckSeen := false
 	for i, s := range r.Steps {
 		b := &r.Blocks[s.Block]
 		delivered[s.Block] = true
 		if ancestorOrSelfBroken(s.Best) || s.Best < 0 {
-			cls := "class=invalid-block-connected"
-			if r.Relock {
-				cls = "class=locked-vote-spend-connected-after-reorg"
-			}
+			cls := connectedClass()
 			fails = append(fails, fmt.Sprintf("%s: after delivery %d (block %d) the best block is %d, which is or descends from the block broken by mutation %q (label %d)", cls, i, s.Block, s.Best, r.Kind, r.Mutant))
 			break
 		}
 		if r.Mutant >= 0 && !r.Valid && s.MutIn {
-			cls := "class=invalid-block-connected"
-			if r.Relock {
-				cls = "class=locked-vote-spend-connected-after-reorg"
-			}
+			cls := connectedClass()
 			fails = append(fails, fmt.Sprintf("%s: after delivery %d InMainChain reports the block broken by mutation %q (label %d)", cls, i, r.Kind, r.Mutant))
 			break
 		}
+		noteMain(s.Best)
 		if !b.Broken {
 			if s.Err == 1 {
 				fails = append(fails, fmt.Sprintf("class=valid-block-rejected: delivery %d: unbroken block %d (case kind %q) is rejected as a bad block", i, s.Block, r.Kind))
@@ -1215,7 +1275,7 @@ func runC13(c *Ctx) error {
 		add("stuck", 0)
 	}
 	// every mutation kind on the main branch and on a fork
-	rounds := c.N(3, 14)
+	rounds := c.N(4, 14)
 	for k := 0; k < rounds; k++ {
 		for _, kind := range kinds {
 			if kind == "gas-over" || kind == "no-coinbase" {
@@ -1227,17 +1287,22 @@ func runC13(c *Ctx) error {
 		}
 	}
 	// random stream: the generator picks kind and place
-	for i := 0; i < c.N(60, 500); i++ {
+	for i := 0; i < c.N(90, 500); i++ {
 		add("", 2)
 	}
 	res, err := runAll(cases)
 	if err != nil {
 		return err
 	}
+	perClass := map[string]int{}
 	for _, cs := range cases {
 		r := res[cs.ID]
 		if r == nil {
 			return fmt.Errorf("no result for case %d", cs.ID)
+		}
+		if r.Note == "hash-collision" {
+			c.Stats.Count("dropped_hash_collision")
+			continue
 		}
 		fails := oracle(r)
 		desc := map[string]interface{}{"seed": cs.Seed, "kind": cs.Kind, "fork": cs.Fork, "mutation": r.Kind, "mutant": r.Mutant, "steps": r.Steps, "inmain": r.InMain, "panic": r.Panic}
@@ -1245,7 +1310,13 @@ func runC13(c *Ctx) error {
 			desc["blocks"] = r.Blocks
 		}
 		for _, f := range fails {
-			c.Stats.Fail(f, desc)
+			// the stats file keeps 20 failures: at most 2 per class, so that no class is crowded out
+			cls := strings.SplitN(f, ":", 2)[0]
+			c.Stats.Count("oracle_" + cls)
+			if perClass[cls] < 2 {
+				perClass[cls]++
+				c.Stats.Fail(f, desc)
+			}
 		}
 		if len(fails) > 0 {
 			c.Stats.Count("oracle_failed_cases")
